@@ -127,6 +127,10 @@ def ofCy2 (q : Cy.Query) : Option S2.Query :=
     if s.wf then pure s else none
   | _, _ => none
 
+/-- executable form of `GraphOK2` (adds: relationship ids unique, every relationship kind known to the kind map) -/
+def graphOK2b (km : KindMap) (g : Graph) : Bool :=
+  graphOKb km g && decide ((g.edges.map (·.id)).Nodup) && g.edges.all (fun e => (km.id? e.kind).isSome)
+
 /-- THE MODEL TRANSLATOR over both proved stages (S1: one node pattern; S2a: one directed hop); `none` elsewhere -/
 def tr2 (km : KindMap) (q : Cy.Query) : Option (Sql.Stmt × List (String × Val)) :=
   match tr km q with
